@@ -89,6 +89,7 @@ static void strata(CellVec *cv, int perRes, int quick) {
     for (int r = 0; r <= 15; r++) {
         cv_pentagon_strata(cv, r, quick ? 1 : 2);
         cv_random_cells(cv, r, perRes);
+        cv_sparse_digit_cells(cv, r, quick);
         if (!quick) cv_seam_cells(cv, r, 2);
     }
 }
